@@ -38,7 +38,16 @@ func init() {
 		"(reflect.Value).Kind":          ext۰reflect۰Value۰Kind,
 		"(reflect.Value).Len":           ext۰reflect۰Value۰Len,
 		"(reflect.Value).MapIndex":      ext۰reflect۰Value۰MapIndex,
+		"(reflect.Value).Cap":           ext۰reflect۰Value۰Cap,
+		"(reflect.Value).Grow":          ext۰reflect۰Value۰Grow,
+		"(reflect.Value).SetLen":        ext۰reflect۰Value۰SetLen,
+		"(reflect.Value).SetZero":       ext۰reflect۰Value۰SetZero,
 		"(reflect.Value).MapKeys":       ext۰reflect۰Value۰MapKeys,
+		"(reflect.Value).MapRange":      ext۰reflect۰Value۰MapRange,
+		"(reflect.Value).SetMapIndex":   ext۰reflect۰Value۰SetMapIndex,
+		"(*reflect.MapIter).Next":       ext۰reflect۰MapIter۰Next,
+		"(*reflect.MapIter).Key":        ext۰reflect۰MapIter۰Key,
+		"(*reflect.MapIter).Value":      ext۰reflect۰MapIter۰Value,
 		"(reflect.Value).NumField":      ext۰reflect۰Value۰NumField,
 		"(reflect.Value).NumMethod":     ext۰reflect۰Value۰NumMethod,
 		"(reflect.Value).Pointer":       ext۰reflect۰Value۰Pointer,
@@ -86,6 +95,8 @@ func init() {
 		"reflect.Indirect":              ext۰reflect۰Indirect,
 		"reflect.Append":                ext۰reflect۰Append,
 		"reflect.MakeSlice":             ext۰reflect۰MakeSlice,
+		"reflect.MakeMap":               ext۰reflect۰MakeMap,
+		"reflect.MakeMapWithSize":       ext۰reflect۰MakeMap,
 		"reflect.StructOf":              ext۰reflect۰StructOf,
 		"math.Float32bits":              func(fr *frame, a []value) value { return math.Float32bits(a[0].(float32)) },
 		"math.Float32frombits":          func(fr *frame, a []value) value { return math.Float32frombits(a[0].(uint32)) },
